@@ -209,6 +209,9 @@ inline QJsonObject fieldsOf(const LogMessage &m)
     f["func"] = QString::fromUtf8(m.function() ? m.function() : "");
     f["cat"] = QString::fromUtf8(m.category() ? m.category() : "");
     f["tid"] = QString::number(m.threadId());
+    // what a handler upstream of the hand-off put on the message travels with it: an attribute, the formatted text
+    f["pre"] = m.attribute(QStringLiteral("pre")).toInt();
+    f["fmt"] = m.isFormatted() ? m.formattedMessage() : QString();
     return f;
 }
 
@@ -286,6 +289,8 @@ struct Probes
                     f["func"] = "void sink()";
                     f["cat"] = "sink";
                     f["tid"] = tid;
+                    f["pre"] = 0;
+                    f["fmt"] = QString();
                     QJsonObject b;
                     b["e"] = "CallBegin";
                     b["t"] = "pw";
